@@ -140,9 +140,15 @@ def run(ctx: Ctx):
         depths |= {0.0, h, h * 1.5, -1.0, -0.0, h / 2, h / 3}
         depths |= {r.uniform(-0.1 * h, 1.2 * h) for _ in range(8)}
         depths = sorted(depths)
-        zrho = np.zeros((N, 2, 3)) + 12345.0
+        # the particle's own cell is round(X), round(Y) (half to even); the neighbours hold other columns
+        zrho = np.zeros((N, 3, 4)) + 12345.0
+        for jj in range(3):
+            for ii in range(4):
+                zrho[:, jj, ii] = np.asarray(zr) * (1.0 + 0.125 * (jj * 4 + ii))
         zrho[:, 1, 2] = zr
-        X = np.full(len(depths), 2.0); Y = np.full(len(depths), 1.0)
+        fx = np.array([2.0, 1.5 + 1e-9, 2.4375, 2.5, 1.75, 2.25])
+        fy = np.array([1.0, 0.5 + 1e-9, 1.4375, 0.75, 1.5 - 1e-9, 1.25])
+        X = fx[np.arange(len(depths)) % len(fx)]; Y = fy[np.arange(len(depths)) % len(fy)]
         try:
             K, A = z2s(zrho, X, Y, np.array(depths))
             got = list(zip([int(k) for k in K], [float(a) for a in A]))
